@@ -137,7 +137,7 @@ func (e *Effects) Direct(fn *ssa.Function) *fnEffects {
 				cc := call.Common()
 				if bi, ok := cc.Value.(*ssa.Builtin); ok {
 					switch bi.Name() {
-					case "clear", "copy":
+					case "clear", "copy", "delete":
 						if len(cc.Args) > 0 {
 							if fields, _, _ := fieldChain(cc.Args[0]); len(fields) > 0 {
 								e.addWrite(fe, fields[len(fields)-1], EffElem, call.Pos(), fn)
